@@ -173,11 +173,11 @@ def run(ctx):
                 raise kit.Inconclusive("RespTrace failed without a rejection: %s" % (rt.error or rt.violated))
             idx = rt.reject[0] - 1
             e = events[idx] if 0 <= idx < len(events) else None
-            failed = rt.reject[1]
-            if failed.strip() == '{"reads"}':
+            failed = rt.reject[1].strip().strip('"').split()
+            if failed == ["reads"]:
                 raise kit.Inconclusive("RespReader.tla predicts other reads than bufio.go issued in recorded run %d: %s"
                                        % (idx, json.dumps(e)[:800]))
-            ctx.violation("recorded/" + "+".join(sorted(x.strip('" ') for x in failed.strip("{}").split(","))),
+            ctx.violation("recorded/" + "+".join(x for x in failed if x != "reads"),
                           "TLC rejects a recorded run of the real codec (%s): stream rope %s chunks %s buffer %s decoded %s err %s" % (
                               failed, e and e["stream"][:80], e and e["chunks"][:20], e and e["buf"],
                               e and json.dumps(e["dec"])[:300], e and e["err"]),
